@@ -2,13 +2,16 @@
     total.  This file holds only the property theorems, each closed by [exact]
     of a lemma proved elsewhere, with [Print Assumptions] beneath.
 
-    Statements marked PARTIAL carry the full statement in a comment: the full
-    statement is false of the code as it is now (DEFECT C19_1 / C19_2, known
-    finding KF-C19-3); the [_refuted] theorem beside it proves that on a
-    witness, the [_fixed] theorem proves the full statement for the model with
-    the candidate patch applied (ValueModel.defect_C19_n := false). *)
+    The statement marked PARTIAL carries the full statement in a comment: the
+    full statement is false of the code (known finding KF-C19-3) and the
+    [_refuted] theorem beside it proves that on a witness.
+
+    Totality and symmetry of Equal and totality of ToScalar were false before
+    the fix commits b28d6aa / e8be1b1 (DEFECT C19_1 / C19_2); the
+    [_before_fix_refuted] theorems keep the witnesses, stated over the model
+    with the defect switched on ([equal_gen true], [to_scalar_gen true]). *)
 From Gnmi Require Import Base.Prelude Path.PathModel Path.QueryString Value.ValueModel.
-From Gnmi Require Import Path.PathProofs Path.QueryProofs Value.ValueProofs.
+From Gnmi Require Import Path.PathProofs Path.QueryProofs Value.ValueProofs Value.FloatProofs.
 From Gnmi Require Import Path.C19Check Path.C19CheckProofs.
 From Coq Require Import Sorting.Sorted.
 
@@ -92,8 +95,26 @@ Print Assumptions C19_query_roundtrip_refuted.
 Theorem C19_scalar_roundtrip :
   forall (jv : string -> bool) (x : gscalar) (t : tv),
     from_scalar x = Ok t -> to_scalar jv t = Ok (widen x).
-Proof. exact (fun jv x t => scalar_roundtrip_gen defect_C19_2 jv x t). Qed.
+Proof. exact scalar_roundtrip. Qed.
 Print Assumptions C19_scalar_roundtrip.
+
+(** "up to float precision": the float64 a float32 is widened to denotes the
+    same real number with the same sign (sub-normals included); infinities and
+    NaNs keep class and sign.  Numbers as (sign, mantissa, binary exponent). *)
+Theorem C19_widen32_exact :
+  forall b : N,
+    f32_exp b <> 255%N -> same_number (f32_decode b) (f64_decode (widen32 b)) = true.
+Proof. exact widen32_exact. Qed.
+Print Assumptions C19_widen32_exact.
+
+Theorem C19_widen32_special :
+  forall b : N,
+    f32_exp b = 255%N ->
+    f64_exp (widen32 b) = 2047%N /\
+    (f64_man (widen32 b) = 0%N <-> f32_man b = 0%N) /\
+    N.land (N.shiftr (widen32 b) 63) 1 = f32_sign b.
+Proof. exact widen32_special. Qed.
+Print Assumptions C19_widen32_special.
 
 (** FromScalar is total: a value for supported input, an error otherwise *)
 Theorem C19_from_scalar_total :
@@ -102,65 +123,62 @@ Theorem C19_from_scalar_total :
 Proof. exact from_scalar_supported. Qed.
 Print Assumptions C19_from_scalar_total.
 
-(** PARTIAL.  Full statement (false now, DEFECT C19_2):
-      forall jv t w, to_scalar jv t <> Panic w. *)
-Theorem C19_to_scalar_total_partial :
-  forall (jv : string -> bool) (t : tv) (w : N), has_nil t = false -> to_scalar jv t <> Panic w.
-Proof. exact (fun jv t w => to_scalar_total_partial defect_C19_2 jv t w). Qed.
-Print Assumptions C19_to_scalar_total_partial.
+(** ToScalar is total: a scalar or an error, never a panic *)
+Theorem C19_to_scalar_total :
+  forall (jv : string -> bool) (t : tv) (w : N), to_scalar jv t <> Panic w.
+Proof. exact to_scalar_total. Qed.
+Print Assumptions C19_to_scalar_total.
 
-Theorem C19_to_scalar_total_refuted :
+Theorem C19_to_scalar_total_before_fix_refuted :
   exists jv t w, to_scalar_gen true jv t = Panic w.
 Proof. exact to_scalar_total_refuted. Qed.
-Print Assumptions C19_to_scalar_total_refuted.
+Print Assumptions C19_to_scalar_total_before_fix_refuted.
 
-Theorem C19_to_scalar_total_fixed :
-  forall (jv : string -> bool) (t : tv) (w : N), to_scalar_gen false jv t <> Panic w.
-Proof. exact to_scalar_fixed_total. Qed.
-Print Assumptions C19_to_scalar_total_fixed.
+(** ... and even before the fix it was total outside the nil class *)
+Theorem C19_to_scalar_total_outside_nil_class :
+  forall (d : bool) (jv : string -> bool) (t : tv) (w : N),
+    has_nil t = false -> to_scalar_gen d jv t <> Panic w.
+Proof. exact to_scalar_total_partial. Qed.
+Print Assumptions C19_to_scalar_total_outside_nil_class.
 
 (** ** Equal *)
 
-(** PARTIAL.  Full statement (false now, DEFECT C19_1):
-      forall a b, exists r, equal a b = Ok r. *)
-Theorem C19_equal_total_partial :
-  forall a b : tv, has_nil a = false -> has_nil b = false -> exists r, equal a b = Ok r.
-Proof. exact (fun a b Ha Hb => equal_gen_total defect_C19_1 a b (or_intror (conj Ha Hb))). Qed.
-Print Assumptions C19_equal_total_partial.
+(** Equal is total: true or false for every pair, never a panic *)
+Theorem C19_equal_total :
+  forall a b : tv, exists r, equal a b = Ok r.
+Proof. exact equal_total. Qed.
+Print Assumptions C19_equal_total.
 
-Theorem C19_equal_total_refuted :
+Theorem C19_equal_total_before_fix_refuted :
   exists a b w, equal_gen true a b = Panic w.
 Proof. exact equal_total_refuted. Qed.
-Print Assumptions C19_equal_total_refuted.
+Print Assumptions C19_equal_total_before_fix_refuted.
 
-Theorem C19_equal_total_fixed :
-  forall a b : tv, exists r, equal_gen false a b = Ok r.
-Proof. exact (fun a b => equal_gen_total false a b (or_introl eq_refl)). Qed.
-Print Assumptions C19_equal_total_fixed.
+(** Equal is symmetric *)
+Theorem C19_equal_sym :
+  forall a b : tv, equal a b = equal b a.
+Proof. exact equal_sym. Qed.
+Print Assumptions C19_equal_sym.
 
-(** PARTIAL.  Full statement (false now, DEFECT C19_1):
-      forall a b, equal a b = equal b a. *)
-Theorem C19_equal_sym_partial :
-  forall a b : tv, has_nil a = false -> has_nil b = false -> equal a b = equal b a.
-Proof. exact (fun a b Ha Hb => equal_gen_sym defect_C19_1 a b (or_intror (conj Ha Hb))). Qed.
-Print Assumptions C19_equal_sym_partial.
-
-Theorem C19_equal_sym_refuted :
+Theorem C19_equal_sym_before_fix_refuted :
   exists a b, equal_gen true a b <> equal_gen true b a.
 Proof. exact equal_sym_refuted. Qed.
-Print Assumptions C19_equal_sym_refuted.
+Print Assumptions C19_equal_sym_before_fix_refuted.
 
-Theorem C19_equal_sym_fixed :
-  forall a b : tv, equal_gen false a b = equal_gen false b a.
-Proof. exact (fun a b => equal_gen_sym false a b (or_introl eq_refl)). Qed.
-Print Assumptions C19_equal_sym_fixed.
+(** ... and even before the fix both held outside the nil class *)
+Theorem C19_equal_total_sym_outside_nil_class :
+  forall (d : bool) (a b : tv),
+    has_nil a = false -> has_nil b = false ->
+    (exists r, equal_gen d a b = Ok r) /\ equal_gen d a b = equal_gen d b a.
+Proof. exact equal_outside_nil_class. Qed.
+Print Assumptions C19_equal_total_sym_outside_nil_class.
 
 (** Equal never reports two different values as equal: "true" only on the same
     value, up to the sign of a floating-point zero (Go's ==) and a nil inner
     message standing for the empty one *)
 Theorem C19_equal_sound :
   forall a b : tv, equal a b = Ok true -> tv_equiv a b.
-Proof. exact (equal_gen_sound defect_C19_1). Qed.
+Proof. exact equal_sound. Qed.
 Print Assumptions C19_equal_sound.
 
 (** ** the executable specification used on the implementation's observations *)
